@@ -43,7 +43,7 @@ func instanceDescFields(pkg *packages.Package) (*types.Named, []*types.Var) {
 
 func runC13(c *core.Ctx) {
 	c.Rule("R1", "every InstanceDesc field is CMP, VOL or DERIVED for the equality shortcut; VOL = fields refreshed into cached subrings (both getters)", 10)
-	c.Rule("R2", "index builders and shard membership read no volatile field", 8)
+	c.Rule("R2", "index builders and shard membership read no volatile field", 12)
 	c.Rule("R8", "a topology change replaces every derived Ring field unconditionally", 1)
 	c.Rule("R7", "the token→instance map shared with subrings is immutable (replaced, never modified, never handed out)", 1)
 	c.Rule("R3", "index replacement resets both caches and the topology stamp; cache fills guarded by stamp equality", 4)
